@@ -2,7 +2,26 @@
     This file only pins statements: every theorem restates a lemma of proofs/ verbatim and is closed by it. *)
 From CacheD Require Import Base Sketch Model Window Micro.
 From CacheD.proofs Require Import Defs ApiProofs HistoryProofs StatsProofs.
-From CacheD.proofs Require Import MicroProofs.
+From CacheD.proofs Require Import MicroProofs MicroBal MicroAll.
+
+(** (C04 / C02, every event of the micro model - every window of every call and of every worker command, every
+   stage of shutdown): a soft-deleted entry is never made readable again; [WAbs] (the key the worker is about to insert is
+   absent) holds at every state of every micro schedule, see [wabs_run] *)
+Theorem C04_micro_hidden_all :
+  forall cfg ms ev k e, WAbs ms ->
+  alookup k (store (mbase ms)) = Some e -> e_soft e = true ->
+  hid k (mbase (fst (mstep cfg ms ev))).
+Proof. exact micro_hidden_all. Qed.
+Print Assumptions C04_micro_hidden_all.
+
+(** (C04 / C02 along whole micro schedules, no restriction on the events): at every state of every micro
+   schedule, the next step - whichever thread takes it, wherever it stands - does not re-expose a soft-deleted entry *)
+Theorem C04_micro_hidden_run :
+  forall cfg evs ev k e,
+  alookup k (store (mbase (mrun cfg evs))) = Some e -> e_soft e = true ->
+  hid k (mbase (fst (mstep cfg (mrun cfg evs) ev))).
+Proof. exact micro_hidden_run. Qed.
+Print Assumptions C04_micro_hidden_run.
 
 (** (C04 under every interleaving of caller micro steps): once the entry of k is soft-deleted (delete(k) passed
    its `delete.marked` point), no micro step of any caller (puts, deletes, reads, put_or_update's first half, shutdown
